@@ -459,7 +459,7 @@ func init() {
 		MinEvals:    4000, MinEvalsThorough: 100000,
 		Runs: func(string) []*Run {
 			rs := []*Run{
-				{Name: "jit", Flavor: "plain", NBatch: n(16, 61), TimeoutS: n(900, 3000), MaxAttempts: 2},
+				{Name: "jit", Flavor: "plain", NBatch: n(17, 65), TimeoutS: n(900, 3000), MaxAttempts: 2},
 				{Name: "vm-optdec", Flavor: "plain", NBatch: n(6, 31), Env: []string{"SONIC_ENCODER_USE_VM=1", "SONIC_USE_OPTDEC=1"}, TimeoutS: n(900, 3000), MaxAttempts: 2},
 				{Name: "sse", Flavor: "plain", NBatch: n(3, 16), Env: []string{"SONIC_MODE=noavx2"}, TimeoutS: n(900, 3000), MaxAttempts: 2},
 			}
